@@ -576,6 +576,29 @@ class Program:
 
     # ---- call resolution ---------------------------------------------------
 
+    def bind_call(self, f: FuncInfo, call: ast.Call) -> dict[str, ast.expr] | None:
+        """parameter name -> argument expression of a call whose callee(s) resolve and agree on their parameter list
+        (positional and keyword arguments alike; the receiver of a method is dropped).  None when unresolved."""
+        cands = self.resolve_call(f, call)
+        if not cands or any(isinstance(a, ast.Starred) for a in call.args) or any(k.arg is None for k in call.keywords):
+            return None
+        lists = []
+        for g in cands:
+            ps = g.positional_params() + [x.arg for x in g.node.args.kwonlyargs]
+            is_method = g.cls is not None and 'staticmethod' not in g.decorators()
+            if is_method and isinstance(call.func, ast.Attribute) or (g.name == '__init__'):
+                ps = ps[1:]
+            lists.append(ps)
+        if any(l != lists[0] for l in lists):
+            return None
+        ps = lists[0]
+        if len(call.args) > len(ps):
+            return None
+        out = {p: a for p, a in zip(ps, call.args)}
+        for k in call.keywords:
+            out[k.arg] = k.value
+        return out
+
     def resolve_call(self, f: FuncInfo, call: ast.Call) -> list[FuncInfo]:
         """Functions that the call may run, as far as names resolve.
 
@@ -759,6 +782,7 @@ class _Normalise(ast.NodeTransformer):
     * `logger.debug(...)` / `logger.info(...)` statements are dropped (tracing is not behaviour for any property here;
       warnings and errors stay);
     * `n = n + 1` (plain name, numeric constant) is `n += 1`;
+    * keywords naming the leading parameters of a callee of the same module / class are positional arguments;
     * `if <negative test>: A else: B` is `if <positive test>: B else: A` (`not x`, `is not`, `!=`, `not in`; not for elif chains);
     * an `else` after a branch that ends with return / raise / continue / break is hoisted behind the `if`;
     * `x = e` immediately followed by `return x` or `raise C(x)`, x being written once and read once in the whole
@@ -767,6 +791,45 @@ class _Normalise(ast.NodeTransformer):
 
     def __init__(self):
         self.depth = 0
+        self.mod_funcs: dict[str, list[str] | None] = {}
+        self.cls_methods: list[dict[str, list[str] | None]] = []
+
+    @staticmethod
+    def _params(fn, drop_first: bool):
+        a = fn.args
+        if a.vararg or a.posonlyargs:
+            return None
+        names = [x.arg for x in a.args]
+        return names[1:] if drop_first else names
+
+    def visit_Module(self, node):
+        self.mod_funcs = {f.name: self._params(f, False) for f in node.body if isinstance(f, ast.FunctionDef)}
+        self.generic_visit(node)
+        return node
+
+    def visit_Call(self, node):
+        """keywords that name the leading parameters of a callee defined in the same module (plain name) or in the same
+        class (`self.m(...)`) are the positional arguments: `f(y=b, x=a)` and `f(a, y=b)` are `f(a, b)`"""
+        self.generic_visit(node)
+        if not node.keywords or any(isinstance(a, ast.Starred) for a in node.args) or any(k.arg is None for k in node.keywords):
+            return node
+        params = None
+        if isinstance(node.func, ast.Name):
+            params = self.mod_funcs.get(node.func.id)
+        elif isinstance(node.func, ast.Attribute) and isinstance(node.func.value, ast.Name) and node.func.value.id == 'self' and self.cls_methods:
+            params = self.cls_methods[-1].get(node.func.attr)
+        if not params:
+            return node
+        kw = {k.arg: k for k in node.keywords}
+        i = len(node.args)
+        moved = []
+        while i < len(params) and params[i] in kw:
+            moved.append(kw.pop(params[i]))
+            i += 1
+        if moved:
+            node.args = node.args + [k.value for k in moved]
+            node.keywords = [k for k in node.keywords if k.arg in kw]
+        return node
 
     def _func(self, node):
         self.depth += 1
@@ -782,9 +845,18 @@ class _Normalise(ast.NodeTransformer):
     visit_AsyncFunctionDef = _func
 
     def visit_ClassDef(self, node):
+        m = {}
+        for f in node.body:
+            if isinstance(f, ast.FunctionDef):
+                static = any(isinstance(d, ast.Name) and d.id == 'staticmethod' for d in f.decorator_list)
+                prop = any((isinstance(d, ast.Name) and d.id == 'property') or isinstance(d, ast.Attribute) for d in f.decorator_list)
+                if not prop:
+                    m[f.name] = self._params(f, not static)
+        self.cls_methods.append(m)
         saved, self.depth = self.depth, 0
         self.generic_visit(node)
         self.depth = saved
+        self.cls_methods.pop()
         return node
 
     def visit_AnnAssign(self, node):
@@ -803,6 +875,7 @@ class _Normalise(ast.NodeTransformer):
         return node
 
     def visit_Expr(self, node):
+        self.generic_visit(node)
         v = node.value
         if self.depth and isinstance(v, ast.Call) and isinstance(v.func, ast.Attribute) and v.func.attr in ('debug', 'info') and isinstance(v.func.value, ast.Name) and v.func.value.id in ('logger', 'logging'):
             return None
